@@ -4,6 +4,13 @@ _BASE_NOTE = ("Trusted: CrossHair's symbolic models of str/int/list and z3 (for 
               "bounds per condition as written to evidence (pre: lines). Nothing is claimed outside the bounds.")
 
 CLAIMS = {
+    "C10": {
+        "technique": "bounded symbolic execution (CrossHair/z3): truncated requests and failure placements through the real entry points against a response-format checker; symbolic index_to_loc; z3 regex equivalence for the line separator",
+        "regex": True,
+        "text": "Requests cut at every position (+0..2 lexer-relevant characters), 10 failure stages x messages x executors: strict JSON, string message, 1-based in-text locations, str/int paths, extensions passed through, no data on parse/validation failure, nulls <-> error paths bijection. "
+                "index_to_loc decided on every body of <= 3/4 symbolic characters and every offset. LINE_SEPARATOR's language == {LF, CR, CRLF} for strings of every length.",
+        "note": _BASE_NOTE + " Appended characters come from a fixed 20-character set (full character-level coverage of the lexer is C01's).",
+    },
     "C06": {
         "technique": "bounded symbolic execution (CrossHair/z3) over documents, transformation subsets and small sub-languages: rule sets reported by the real validator are invariant under validity-preserving transformations and equal spec references on sub-languages",
         "text": "Metamorphic: 60 documents x subsets of 8 transformations x 4 re-spellings keep the set of violated rules and the verdict. Mutants: 30 single-rule mutants (all 26 rules) are reported by their rule. "
